@@ -3219,10 +3219,15 @@ class Group(System):
         compute_cross_keys = not total and self.comm.size > 1 and self._has_fd_group
         graph = self._problem_meta['dataflow_graph']
 
+        # A semi-total d(output)/d(group input) can have the same key as a partial declared by a
+        # component inside the group (the residual of an implicit component wrt its input), but it is
+        # a different quantity with a different sparsity, so only metadata created here is reused.
+        own_keys = getattr(self, '_approx_own_keys', set())
+
         for key in approx_keys:
             of, wrt = key
 
-            if key in self._subjacs_info:
+            if key in self._subjacs_info and (total or key in own_keys):
                 meta = self._subjacs_info[key]
             else:
                 # check connection between of and wrt before creating a subjac
@@ -3285,6 +3290,22 @@ class Group(System):
                     self._owns_approx_wrt[n] = {'distributed': m['distributed']}
 
             self._owns_approx_jac = True
+
+            # An approximated group behaves like one explicit component: its jacobian consists of
+            # the approximated d(output)/d(group input) blocks and -1 on the diagonal of every
+            # output.  The partials declared by the components inside the group (never linearized
+            # here, and not of that form for implicit or matrix-free components) do not belong in it.
+            approx_key_set = set(approx_keys)
+            info = {key: meta for key, meta in self._subjacs_info.items() if key in approx_key_set}
+            self._approx_own_keys = set(info)
+            for of, ofmeta in abs2meta_out.items():
+                osize = ofmeta['size']
+                meta = SUBJAC_META_DEFAULTS.copy()
+                meta['diagonal'] = True
+                meta['val'] = np.full(osize, -1.0)
+                info[of, of] = Subjac.get_instance_metadata(meta, None, (osize, osize), self,
+                                                            (of, of))
+            self._subjacs_info = info
 
     def _setup_approx_coloring(self):
         """
